@@ -703,7 +703,9 @@ class Dosym(_Symlink):
 class Dohard(_Symlink):
     """Python wrapper for dohard."""
 
-    _link = os.link
+    def _link(self, source, target):
+        # both names are paths inside the image
+        os.link(pjoin(self.op.ED, source.lstrip(os.path.sep)), target)
 
 
 class Doman(_InstallWrapper):
